@@ -287,7 +287,7 @@ def get_trace(grp, inst, prop_id, tmo=900):
 def native_replay(grp, inst, inputs):
     """build generated C + models with gcc and run on the solver's inputs. returns (reproduced, text)"""
     exe = os.path.join(grp.dir, 'native_%s' % inst['name'])
-    cmd = ['gcc', '-O0', '-w', '-fwrapv', '-o', exe, 'main_%s.c' % inst['name'], '-DVP_NATIVE=1']
+    cmd = ['gcc', '-O0', '-w', '-fwrapv', '-falign-functions=16', '-o', exe, 'main_%s.c' % inst['name'], '-DVP_NATIVE=1']
     for k, v in inst.get('cdefs', {}).items(): cmd.append('-D%s=%s' % (k, v))
     r = run(cmd, cwd=grp.dir)
     if r.returncode != 0: return None, 'native build failed: ' + r.stderr[-800:]
